@@ -563,6 +563,25 @@ def run_job(job):
 
 
 # ------------------------------------------------------- (V) random hostile sessions
+def run_genuine(job):
+    """No hostile input at all: genuine traffic of two applications over a network that drops, duplicates, delays and reorders
+    (netsim script profiles); the property covers those arrival orders too - every API call must still return normally."""
+    from .netsim import script
+    rnd = random.Random(job["seed"])
+    lines = []
+    for i in range(job["n"]):
+        prof = rnd.choice(["dup", "dup", "mixed", "lossy", "migrate", "tailloss"])
+        cfg = dict(BASE_CFG, idle=rnd.choice([5.0, 60.0]), cc=rnd.choice(["reno", "cubic"]))
+        sc = script.random_script(rnd, rnd.choice([40, 80, 120]), script.PROFILES[prof])
+        s = script.run(A, cfg, sc, seed=rnd.randrange(1 << 24), hs_adv=rnd.random() < 0.3)
+        init = {"ev": "init", "role": "client", "phase": "session", "lvl": "v", "name": "genuine", "ep": "-", "sig": "v:genuine-reordering:" + prof,
+                "qs": "", "cp": False, "tls": "", "hc": False, "hcf": False}
+        post = {"closed": False, "sent": 0, "events": 0, "accepted": False, "moved": False, "term": all(s.terminated[ep] for ep in s.eps),
+                "code_hi": 0, "code_lo": 0, "has_code": False, "raised0": 0}
+        lines += project(s, 0, init, post)
+    return {"lines": lines, "hostile": 0, "sessions": job["n"]}
+
+
 def run_session(job):
     """Long seeded random hostile sessions: a key-holding peer on either side mixes random frame
     sequences, raw garbage and mutated genuine datagrams with the genuine traffic of an application."""
